@@ -251,6 +251,12 @@ class MarkerTheory:
             return Joined("and" if recv == " and " else "or", args[0])
         return NotImplemented
 
+    def builtin(self, ex, name, args, kw):
+        from ..calls import StarArgs
+        if name in ("itertools.product", "product") and len(args) == 1 and isinstance(args[0], StarArgs) and getattr(self, "product_contract", None) is not None:
+            return self.product_contract(ex, args[0].alist)
+        return NotImplemented
+
     def binop(self, ex, name, a, b):
         if self.binop_law is None:
             raise OutsideSubset(f"{name} on abstract markers without a law contract")
